@@ -954,7 +954,10 @@ for _f, _cells in exact_cells().items():
 
 
 def shards(tier, seed):
-    return [{'n': CASES[tier], 'nshards': NSHARDS, 'budget_s': BUDGET[tier]} for _ in range(NSHARDS)]
+    # VERIF_BUDGET_SCALE (default 1) scales the per-shard CPU budget; used only to self-validate on a shared, loaded machine
+    import os
+    scale = float(os.environ.get('VERIF_BUDGET_SCALE', '1') or 1)
+    return [{'n': CASES[tier], 'nshards': NSHARDS, 'budget_s': BUDGET[tier] * scale} for _ in range(NSHARDS)]
 
 
 def run_shard(shard, rec):
